@@ -375,9 +375,72 @@ def loaded_history(seed, res):
             res.outcome(('loaded', tag == 'full'))
 
 
+def twins_history(seed, res):
+    """Two carts loaded from the same file (sparse .p8 files of several shapes, a full .p8, a .p8.png) in one process:
+    boundary writes into one of them must leave the other one, and a cart loaded afterwards, with the file's bytes."""
+    import io
+    from pico8.game.formatter.p8 import P8Formatter
+    from pico8.game.formatter.p8png import P8PNGFormatter
+    from lib import refcodec as rc
+    shapes = [('only-lua', {}, ()), ('only-gfx', {'gfx': 128}, ('gfx',)), ('no-map', {'gfx': 128, 'gff': 2, 'music': 64, 'sfx': 64}, ()),
+              ('short-all', {'gfx': 3, 'map': 2, 'gff': 1, 'music': 1, 'sfx': 2}, ()), ('full', dict(FULL_ROWS), ()), ('png', None, ())]
+    for tag, rows, blank in shapes:
+        if tag == 'png':
+            mem = bytearray(0x8001)
+            mem[:TOTAL] = initial(seed, 0)
+            mem[0x4300:0x4303] = b'x=1'
+            mem[0x8000] = 33
+            data = rc.png_encode_rgba(160, 205, rc.stego_pack(bytes(mem), 160, 205, [bytes(160 * 4)] * 205))
+
+            def load():
+                return P8PNGFormatter.from_file(io.BytesIO(data), filename='x.p8.png')
+        else:
+            text = short_cart_text(rows, blank)
+
+            def load():
+                return P8Formatter.from_file(io.BytesIO(text), filename='x.p8')
+        case = {'twins': tag}
+        try:
+            a, b = load(), load()
+        except Exception as e:
+            res.violation('C18|twins|load-raise|%s' % type(e).__name__, 'loading %s raised %r' % (tag, e), case)
+            continue
+        file_image = image(b)
+        model = image(a)
+        hist = []
+        for k, (s, e) in enumerate(ALIAS_WRITES):
+            res.evaluations += 1
+            ok, model = apply_and_check(a, model, s, e, fill(seed, k % 5 + 1), res, hist)
+            hist = hist + [[s, e]]
+            if not ok:
+                for sig in list(res.violations):
+                    if not sig.startswith(('C18|twins', 'C18|loaded', 'C18|alias', 'C18|after')):
+                        v = res.violations.pop(sig)
+                        res.violations['C18|twins|%s' % sig.split('|', 1)[1]] = (v[0] + ' [twin carts loaded from %s]' % tag,
+                                                                             {'twins': tag, 'hist': hist}, v[2])
+                break
+            if image(b) != file_image:
+                bad = next(i for i in range(TOTAL) if image(b)[i] != file_image[i])
+                res.violation('C18|twins|other-cart-changed|%s' % tag,
+                              'write [%#x,%#x) into a cart loaded from a file (%s) changed byte %#x of ANOTHER cart loaded from the '
+                              'same file' % (s, e, tag, bad), {'twins': tag, 'hist': hist})
+                break
+            res.nontriv(('twins', tag, k))
+        else:
+            try:
+                c = image(load())
+            except Exception as e:
+                c = None
+            if c != file_image:
+                res.violation('C18|twins|later-load-changed|%s' % tag,
+                              'after writes into a loaded cart, loading the same file (%s) again gives other contents' % tag, case)
+            else:
+                res.outcome(('twins', tag))
+
+
 def shards(tier, seed):
     depth, deltas = plan(tier)
-    return [(tier, seed, init, i) for init in (0, 1) for i in range(len(WRITES[deltas[0]]))] + [('replace', seed), ('alias', seed), ('loaded', seed)]
+    return [(tier, seed, init, i) for init in (0, 1) for i in range(len(WRITES[deltas[0]]))] + [('replace', seed), ('alias', seed), ('loaded', seed), ('twins', seed)]
 
 
 def run_shard(item):
@@ -385,6 +448,11 @@ def run_shard(item):
         res = ShardResult()
         replace_history(item[1], res)
         res.sample({'history': 'write x6; replace section object(s); write x6; ... on one Game'})
+        return res
+    if item[0] == 'twins':
+        res = ShardResult()
+        twins_history(item[1], res)
+        res.sample({'history': 'two carts loaded from the same (sparse/full .p8, .p8.png) file; 9 boundary writes into one'})
         return res
     if item[0] == 'loaded':
         res = ShardResult()
@@ -412,6 +480,9 @@ def replay(case):
     if 'replace' in case:
         replace_history(0, res)
         return [(s, v[0]) for s, v in res.violations.items()]
+    if 'twins' in case:
+        twins_history(0, res)
+        return [(s_, v[0]) for s_, v in res.violations.items()]
     if 'loaded' in case:
         loaded_history(0, res)
         return [(s, v[0]) for s, v in res.violations.items()]
